@@ -2403,3 +2403,48 @@ CASES += [
                 let mut v = Vec::new();
                 // f is a node; recurse and compress the result"""),
 ]
+
+CASES += [
+    # ------------------------------------------------------------------ WC owned state (round 9: C06-r9m1, C11-r9m2; also C06-r4m1)
+    dict(name="wc-watch-tables-asked-by-the-solver", file=UP, rule="WC", props=["C06", "C09"], expect="watch-tables:access<-repr::unit_prop::UnitPropagate::is_watched",
+         old="""    /// Set a variable to a particular value and propagates
+    /// returns true if success, false if UNSAT
+    fn decide(""",
+         new="""    /// true if some clause watches a literal of this variable
+    pub fn is_watched(&self, var: VarLabel) -> bool {
+        !self.watch_list_pos[var.value_usize()].is_empty() || !self.watch_list_neg[var.value_usize()].is_empty()
+    }
+
+    /// Set a variable to a particular value and propagates
+    /// returns true if success, false if UNSAT
+    fn decide(""",
+         more=[(UP, """    pub fn is_sat(&self) -> bool {""", """    pub fn is_constrained(&self, var: VarLabel) -> bool {
+        self.up.is_watched(var)
+    }
+
+    pub fn is_sat(&self) -> bool {""")]),
+    dict(name="wc-watch-tables-private-helper-of-decide-ok", file=UP, rule="WC", props=["C06", "C09"], expect=None,
+         old="""    /// Set a variable to a particular value and propagates
+    /// returns true if success, false if UNSAT
+    fn decide(""",
+         new="""    fn num_watchers(&self, lit: Literal) -> usize {
+        if lit.polarity() {
+            self.watch_list_neg[lit.label().value_usize()].len()
+        } else {
+            self.watch_list_pos[lit.label().value_usize()].len()
+        }
+    }
+
+    /// Set a variable to a particular value and propagates
+    /// returns true if success, false if UNSAT
+    fn decide(""",
+         more=[(UP, """            if new_assignment.polarity() {
+                if watcher_idx >= self.watch_list_neg[var_idx].len() {
+                    break;
+                }
+            } else if watcher_idx >= self.watch_list_pos[var_idx].len() {
+                break;
+            }""", """            if watcher_idx >= self.num_watchers(new_assignment) {
+                break;
+            }""")]),
+]
